@@ -186,6 +186,11 @@ func doPopulateStructFromCBOR(
 				typeField.Name, keyInt)
 		}
 
+		if !valField.CanAddr() {
+			return fmt.Errorf("cannot populate field %q: not addressable (an embedded interface must hold a pointer)",
+				typeField.Name)
+		}
+
 		fieldPtr := valField.Addr().Interface()
 		if err := dm.Unmarshal(rawVal, fieldPtr); err != nil {
 			return fmt.Errorf("error unmarshaling field %q: %w",
